@@ -19,11 +19,10 @@
 (*        first word; `detected` comes 1..MaxDetLat cycles after the last  *)
 (*        word; the reported configuration is that of any of the counted   *)
 (*        sets.  Not-valid words neither extend nor break anything.        *)
-(*  Env assumptions (re-synchronisation is not specified by the property,  *)
-(*  see DetHazard): after a word that breaks a set in progress (or a       *)
-(*  foreign word right behind a set) the next set does not begin in the    *)
-(*  same or the next cycle; between sets separated by an idle gap only     *)
-(*  set words follow; the stream starts with a not-valid cycle.            *)
+(*  Anything that is not the next word of the set in progress voids what  *)
+(*  was counted (whole sets of another kind, near-miss sets, foreign       *)
+(*  words, aligned or not, behind an idle gap or not); if that word is     *)
+(*  itself a first word, a new set starts with it.  No Env assumption.     *)
 (***************************************************************************)
 EXTENDS SsLink
 
@@ -79,30 +78,19 @@ EmNext(e, r) ==
 
 -----------------------------------------------------------------------------
 (* Detector.  d = [k (words of the current set matched), cnt (complete     *)
-(* consecutive sets), cfgs (their configurations), owe, gap (a not-valid   *)
-(* cycle since the last set word), broke (a breaking word in the previous  *)
-(* cycle), first].  Record fields iw, det, dhr, dlb, dsd.                  *)
-DetInit == [k |-> 0, cnt |-> 0, cfgs |-> {}, owe |-> <<>>, justdone |-> FALSE, broke |-> FALSE, first |-> TRUE]
-
-\* Env assumptions (see the module header): returns the name of the violated one, or "ok"
-DetHazard(d, w) ==
-    IF d.first /\ w.v THEN "env_first_cycle_valid"
-    ELSE IF ~w.v THEN "ok"
-    ELSE IF d.broke /\ IsSetWord(w, 1) THEN "env_set_starts_right_after_break"
-    ELSE IF d.k > 0 /\ ~IsSetWord(w, d.k + 1) /\ IsSetWord(w, 1) THEN "env_set_starts_with_breaking_word"
-    ELSE IF d.k = 0 /\ d.cnt > 0 /\ ~d.justdone /\ ~IsSetWord(w, 1) THEN "env_foreign_word_after_idle_gap"
-    ELSE "ok"
+(* consecutive sets), cfgs (their configurations), owe (the report due)].  *)
+(* Record fields iw, det, dhr, dlb, dsd.                                   *)
+DetInit == [k |-> 0, cnt |-> 0, cfgs |-> {}, owe |-> <<>>]
 
 DetConsume(d, w) ==
-    LET d0 == [d EXCEPT !.first = FALSE, !.broke = FALSE, !.justdone = FALSE] IN
-    IF ~w.v THEN d0
+    IF ~w.v THEN d
     ELSE IF IsSetWord(w, d.k + 1) THEN
         LET cf == IF HasCfg /\ d.k + 1 = 2 THEN d.cfgs \cup {CfgOf(w)} ELSE d.cfgs IN
-        IF d.k + 1 < SetLen THEN [d0 EXCEPT !.k = d.k + 1, !.cfgs = cf]
-        ELSE IF d.cnt + 1 < DetN THEN [d0 EXCEPT !.k = 0, !.cnt = d.cnt + 1, !.cfgs = cf, !.justdone = TRUE]
-        ELSE [d0 EXCEPT !.k = 0, !.cnt = 0, !.cfgs = {}, !.justdone = TRUE, !.owe = <<[cfgs |-> cf, age |-> 0]>>]
-    ELSE \* a word that is not the next word of a set: everything counted so far is void
-        [d0 EXCEPT !.k = 0, !.cnt = 0, !.cfgs = {}, !.broke = (d.k > 0 \/ d.justdone)]
+        IF d.k + 1 < SetLen THEN [d EXCEPT !.k = d.k + 1, !.cfgs = cf]
+        ELSE IF d.cnt + 1 < DetN THEN [d EXCEPT !.k = 0, !.cnt = d.cnt + 1, !.cfgs = cf]
+        ELSE [d EXCEPT !.k = 0, !.cnt = 0, !.cfgs = {}, !.owe = <<[cfgs |-> cf, age |-> 0]>>]
+    ELSE \* not the next word of a set: everything counted so far is void; it may begin a new set
+        [d EXCEPT !.k = IF IsSetWord(w, 1) THEN 1 ELSE 0, !.cnt = 0, !.cfgs = {}]
 
 \* Env assumption: a detection never becomes due while the previous one is still owed
 DetOverrun(d, d1) == d.owe # <<>> /\ d1.owe # d.owe
@@ -124,9 +112,8 @@ DetAfter(d, d1, r) ==
 -----------------------------------------------------------------------------
 Judge(s, r) ==
     LET ef == EmFailing(s.e, r)
-        hz == DetHazard(s.d, r.iw)
         d1 == DetConsume(s.d, r.iw)
-    IN [f |-> IF ef # "ok" THEN ef ELSE IF hz # "ok" THEN hz
+    IN [f |-> IF ef # "ok" THEN ef
               ELSE IF DetOverrun(s.d, d1) THEN "env_detection_overrun" ELSE DetFailing(s.d, d1, r),
         n |-> [e |-> EmNext(s.e, r), d |-> DetAfter(s.d, d1, r)]]
 SInit == [e |-> EmInit, d |-> DetInit]
